@@ -120,22 +120,22 @@ func boundaryBlock() fam {
 	var ps []string
 	for i, b := range lits {
 		ps = append(ps,
-			fmt.Sprintf("try .[:%s] catch \"S\"", b), fmt.Sprintf("try .[%s:] catch \"S\"", b), fmt.Sprintf("try .[%s] catch \"I\"", b), fmt.Sprintf("[limit(%s; 1, 2, 3)]", b), fmt.Sprintf("[limit(3; range(%s))]", b),
+			fmt.Sprintf(".[:%s]", b), fmt.Sprintf(".[%s:]", b), fmt.Sprintf(".[%s]", b), fmt.Sprintf("[limit(%s; 1, 2, 3)]", b), fmt.Sprintf("[limit(3; range(%s))]", b),
 			fmt.Sprintf("try (\"abc\" | .[:%s], .[%s:]) catch \"S\"", b, b), fmt.Sprintf("[limit(3; range(0; %s))]", b), fmt.Sprintf("[limit(3; range(0; 10; %s))]", b), fmt.Sprintf("try (\"\" * %s) catch \"R\"", b),
-			fmt.Sprintf("try nth(%s; 1, 2, 3) catch \"N\"", b), fmt.Sprintf("try has(%s) catch \"H\"", b), fmt.Sprintf("try getpath([%s]) catch \"G\"", b), fmt.Sprintf("try del(.[%s]) catch \"D\"", b), fmt.Sprintf("try flatten(%s) catch \"F\"", b))
+			fmt.Sprintf("nth(%s; 1, 2, 3)", b), fmt.Sprintf("has(%s)", b), fmt.Sprintf("getpath([%s])", b), fmt.Sprintf("del(.[%s])", b), fmt.Sprintf("flatten(%s)", b))
 		switch i % 3 {
 		case 0:
-			ps = append(ps, fmt.Sprintf("try .[1:%s] catch \"S\"", b), fmt.Sprintf("try .[%s:2] catch \"S\"", b), fmt.Sprintf("try .[-%s:] catch \"S\"", b), fmt.Sprintf("[limit(3; range(%s; %s + 3))]", b, b), fmt.Sprintf("try path(.[:%s]) catch \"S\"", b), fmt.Sprintf("try (.[%s] = 9) catch \"I\"", b))
+			ps = append(ps, fmt.Sprintf(".[1:%s]", b), fmt.Sprintf(".[%s:2]", b), fmt.Sprintf(".[-%s:]", b), fmt.Sprintf("[limit(3; range(%s; %s + 3))]", b, b), fmt.Sprintf("path(.[:%s])", b), fmt.Sprintf("(.[%s] = 9)", b))
 		case 1:
-			ps = append(ps, fmt.Sprintf("try .[%s:%s] catch \"S\"", b, b), fmt.Sprintf("[.[]?][%s:] | length", b), fmt.Sprintf("try first(limit(%s; repeat(1))) catch \"L\"", b), fmt.Sprintf("try path(.[%s]) catch \"I\"", b), fmt.Sprintf("try (.[:%s] |= .) catch \"S\"", b), fmt.Sprintf("try (\"ab\" * (%s | if . > 3 or . < -3 then 0 else . end)) catch \"R\"", b))
+			ps = append(ps, fmt.Sprintf(".[%s:%s]", b, b), fmt.Sprintf("[.[]?][%s:] | length", b), fmt.Sprintf("first(limit(%s; repeat(1)))", b), fmt.Sprintf("path(.[%s])", b), fmt.Sprintf("(.[:%s] |= .)", b), fmt.Sprintf("try (\"ab\" * (%s | if . > 3 or . < -3 then 0 else . end)) catch \"R\"", b))
 		default:
-			ps = append(ps, fmt.Sprintf("(%s) as $b | try .[:$b] catch \"S\"", b), fmt.Sprintf("(%s) as $b | try .[$b:] catch \"S\"", b), fmt.Sprintf("try ([range(5)] | .[%s:] , .[:%s]) catch \"S\"", b, b), fmt.Sprintf("try setpath([%s]; 1) catch \"T\"", b), fmt.Sprintf("try (%s | floor, ceil, round, fabs, sqrt) catch \"M\"", b), fmt.Sprintf("%s | tojson, (. == (. | tojson | fromjson))?", b))
+			ps = append(ps, fmt.Sprintf("(%s) as $b | .[:$b]", b), fmt.Sprintf("(%s) as $b | .[$b:]", b), fmt.Sprintf("([range(5)] | .[%s:] , .[:%s])", b, b), fmt.Sprintf("setpath([%s]; 1)", b), fmt.Sprintf("(%s | floor, ceil, round, fabs, sqrt)", b), fmt.Sprintf("%s | tojson, (. == (. | tojson | fromjson))?", b))
 		}
 	}
 	// the same boundaries arriving as DATA: .[1] is the bound
 	ps = append(ps,
-		"try .[0][:.[1]] catch \"S\"", "try .[0][.[1]:] catch \"S\"", "try .[0][.[1]] catch \"I\"", "[limit(.[1]; .[0][]?)]?", "try (.[0] | tostring | .[:5]) catch \"S\"", ".[1] as $b | try (.[0] | .[$b:$b]) catch \"S\"", "try (.[0] | del(.[:.[1]]?)) catch \"D\"", ".[1] | tojson",
-		"try ([.[0][:.[1]], .[0][.[1]:]] | map(length)) catch \"S\"", ".[1] as $b | [limit(3; range($b))]?", ".[1] as $b | try nth($b; .[0][]?) catch \"N\"", ".[1] | [floor?, ceil?, (. % 7)?]", ".[1] | [. == 9223372036854775808, . < 9223372036854775808, . > 9223372036854775807]")
+		".[0][:.[1]]", ".[0][.[1]:]", ".[0][.[1]]", "[limit(.[1]; .[0][]?)]?", "(.[0] | tostring | .[:5])", ".[1] as $b | (.[0] | .[$b:$b])", "(.[0] | del(.[:.[1]]?))", ".[1] | tojson",
+		"([.[0][:.[1]], .[0][.[1]:]] | map(length))", ".[1] as $b | [limit(3; range($b))]?", ".[1] as $b | nth($b; .[0][]?)", ".[1] | [floor?, ceil?, (. % 7)?]", ".[1] | [. == 9223372036854775808, . < 9223372036854775808, . > 9223372036854775807]")
 	two63 := 9223372036854775808.0
 	ins := []any{
 		[]any{1, 2, 3}, "abc", []any{[]any{1, 2, 3}, two63}, []any{[]any{1, 2, 3}, -two63}, []any{"héllo", two63}, []any{[]any{1, 2, 3}, 9007199254740992.0}, []any{[]any{1, 2, 3}, bigOf("9223372036854775808")},
